@@ -140,6 +140,16 @@ var oneD = []w1d{
 	{"CODABAR", gozxing.BarcodeFormat_CODABAR, oned.NewCodaBarWriter, oned.NewCodaBarReader, func(r *fw.Rand) string { return from(r, "0123456789-$", 2+r.Intn(10)) }},
 }
 
+// a registered name of every character set with a text it represents
+var charsetTexts = [][2]string{
+	{"UTF-16BE", "Ünï 漢字 ✓"}, {"UnicodeBig", "données"}, {"UnicodeBigUnmarked", "テスト"},
+	{"Big5", "繁體中文"}, {"GB18030", "简体中文€"}, {"GBK", "简体"}, {"GB2312", "中文"}, {"EUC_CN", "汉字"}, {"EUC-KR", "한국어"}, {"EUC_KR", "한글"},
+	{"ISO-8859-1", "café"}, {"ISO8859_1", "naïve"}, {"ISO-8859-2", "Łódź"}, {"ISO-8859-3", "Ħĉ"}, {"ISO-8859-4", "Ąš"}, {"ISO-8859-5", "Привет"},
+	{"ISO-8859-7", "Ελληνικά"}, {"ISO-8859-9", "İstanbul"}, {"ISO-8859-13", "Žemė"}, {"ISO-8859-15", "€uro"}, {"ISO-8859-16", "Șț"},
+	{"windows-1250", "Łódź"}, {"Cp1250", "Žluť"}, {"windows-1251", "Привет"}, {"Cp1251", "мир"}, {"windows-1252", "œuvre"}, {"windows-1256", "مرحبا"}, {"Cp1256", "سلام"},
+	{"Cp437", "░▒▓"}, {"ASCII", "plain"}, {"US-ASCII", "text"}, {"SJIS", "日本語"}, {"UTF8", "ß→∞"},
+}
+
 var rssFiles []string
 
 func init() {
@@ -157,6 +167,15 @@ func BuildOps(r *fw.Rand, n int) []Op {
 			content := w.gen(r)
 			width, height := r.Intn(300), 1+r.Intn(40)
 			multi := r.Intn(3) == 0 && (w.name == "EAN_13" || w.name == "EAN_8" || w.name == "UPC_A" || w.name == "UPC_E")
+			// upside-down and sideways symbols take the reversed-row and rotated-image paths of the row scanner
+			rot := 0
+			if r.Bool() {
+				rot = 1 + r.Intn(3)
+				if height < 8 {
+					height += 8
+				}
+			}
+			tryHarder := rot != 2 || r.Bool()
 			ops = append(ops, Op{"1d/" + w.name, func() string {
 				bm, err := w.mk().Encode(content, w.format, width, height, nil)
 				out := matrixHash(bm, err)
@@ -164,19 +183,28 @@ func BuildOps(r *fw.Rand, n int) []Op {
 					return out
 				}
 				bmp, _ := gozxing.NewBinaryBitmapFromImage(bm)
+				for i := 0; i < rot; i++ {
+					if bmp, err = bmp.RotateCounterClockwise(); err != nil {
+						return out + " rotate: " + err.Error()
+					}
+				}
 				var rd gozxing.Reader
 				if multi {
 					rd = oned.NewMultiFormatUPCEANReader(nil)
 				} else {
 					rd = w.rd()
 				}
-				res, rerr := rd.Decode(bmp, map[gozxing.DecodeHintType]interface{}{gozxing.DecodeHintType_TRY_HARDER: true})
-				return out + " -> " + canon(res, rerr)
+				dh := map[gozxing.DecodeHintType]interface{}{}
+				if tryHarder {
+					dh[gozxing.DecodeHintType_TRY_HARDER] = true
+				}
+				res, rerr := rd.Decode(bmp, dh)
+				return out + fmt.Sprintf(" rot%d -> ", rot) + canon(res, rerr)
 			}})
 		case k < 11: // QR write + read (pure and detector path, charset hints)
 			var content string
 			hints := map[gozxing.EncodeHintType]interface{}{}
-			switch r.Intn(4) {
+			switch r.Intn(6) {
 			case 0:
 				content = digits(r, 1+r.Intn(200))
 			case 1:
@@ -188,9 +216,15 @@ func BuildOps(r *fw.Rand, n int) []Op {
 					// the unchanged tree, deterministically): name lookups hit the shared registry
 					hints[gozxing.EncodeHintType_CHARACTER_SET] = []string{"UTF-8", "ISO-8859-15", "windows-1252", "UTF8", "Cp1252", "utf-8", "latin1", "cp819", "csWindows1252", "iso-8859-15", "Windows-1252", "IBM437", "ascii"}[r.Intn(13)]
 				}
-			default:
+			case 3:
 				content = "漢字テスト日本語"[:3*(1+r.Intn(7))]
 				hints[gozxing.EncodeHintType_CHARACTER_SET] = "Shift_JIS"
+			default:
+				// every registered character set by some name, with text it represents: the symbol
+				// carries the ECI designator and the reader goes through the registry and the codec
+				cs := charsetTexts[r.Intn(len(charsetTexts))]
+				content = cs[1] + from(r, "abcdefghijklmnopqrstuvwxyz 0123456789", 1+r.Intn(20)) + cs[1]
+				hints[gozxing.EncodeHintType_CHARACTER_SET] = cs[0]
 			}
 			hints[gozxing.EncodeHintType_ERROR_CORRECTION] = []string{"L", "M", "Q", "H"}[r.Intn(4)]
 			scale := 1 + r.Intn(4)
